@@ -51,6 +51,7 @@ type threadKilled struct{}
 func (e *Explorer) resetThreads() {
 	e.mainT = &gthread{ret: make(chan threadRet), vc: vclock{1}}
 	e.syncVC = map[syncKey]vclock{}
+	e.cellRace = map[*value]*cellState{}
 	e.raceSeen = map[string]bool{}
 	e.cur = e.mainT
 	e.parkedT = nil
@@ -453,10 +454,16 @@ func init() {
 		st := (*p).(structure)
 		newFn := st[len(st)-1] // field New is the last one
 		switch f := newFn.(type) {
-		case *closure, *ssa.Function:
-			return call(fr.i, fr, token.NoPos, f, nil)
+		case *closure:
+			if f != nil {
+				return call(fr.i, fr, token.NoPos, f, nil)
+			}
+		case *ssa.Function:
+			if f != nil {
+				return call(fr.i, fr, token.NoPos, f, nil)
+			}
 		}
-		return iface{}
+		return iface{} // no New: Get of an empty pool answers nil
 	}
 }
 
